@@ -84,10 +84,9 @@ def parse_log(path):
     return pcs
 
 
-def reset_state(jitter, prog, spec):
+def reset_state(jitter, prog, spec, all_regs):
     """bring registers and data pages back to the program's initial state (warm re-run)"""
-    for r, v in prog.regs.items():
-        setattr(jitter.cpu, r, v)
+    jitter.cpu.set_gpreg(all_regs)        # every register, not only those the program initialises
     for addr, perm, data, name in prog.pages:
         if name != "code":          # code bytes never change here: keep the translated blocks
             jitter.vm.set_mem(addr, data)
@@ -106,6 +105,7 @@ def run_cfg(jitlib, spec, backend, prog, cfg, tmpdir, max_steps):
         jitter = jitlib.new_jitter(spec, backend, prog, opts)
     finally:
         jitcore.JitCore.jitted_block_max_size = saved
+    all_regs = jitter.cpu.get_gpreg()
     cache = jitter.jit.offset_to_jitted_func
     added = [0]
     orig_add = jitter.jit.add_block
@@ -123,7 +123,7 @@ def run_cfg(jitlib, spec, backend, prog, cfg, tmpdir, max_steps):
         out0 = jitlib.run(spec, backend, prog, max_steps=max_steps, jitter=jitter, int_handler=True)
         if out0.budget:
             return out0, None, 0
-        reset_state(jitter, prog, spec)
+        reset_state(jitter, prog, spec, all_regs)
         jitter.exec_cb = None
         cfg["_first"] = out0
     if cfg.get("traced"):
